@@ -17,6 +17,8 @@ CHECKS = {
             'N <= 4 nodes per type; finite probe alphabet', EXPL, 'DESIGN.md 3 C04'),
     'C05': ('exploration', 'every operator-labelled expression skeleton with <=3 (thorough 4) operator nodes over + - * / ^, unary minus and the documented functions, leaves from colliding identifier sets, in 4 surface variants and 3 equation forms, evaluated on both paths of the real code (parser + eval_node; generated source) at 3 valuations and compared with python-ast/NumPy evaluation',
             'finite valuations instead of all reals; expressions larger than the bound; index helpers on arrays are covered by C01/C04/C09 models only; valuations outside the real domain of an expression are rejected', EXPL, 'DESIGN.md 3 C05'),
+    'C06': ('exploration', 'circuits of 2-3 (4) decaying nodes with pairwise different rate and initial value, depth 0-1 (2), ALL permutations of the node declaration order, a second node type that breaks the vectorization group; every output request form (dict/list, single, wildcard at each level, several keys, mixed) x vectorize: each DataFrame column must hold the closed-form trajectory of exactly the node named by its label; plus get_variable_positions after get_run_func on nodes whose operators share a variable name',
+            'paths as edge endpoints, input targets and update_var keys are decided by C01, C08 and C07; population outputs by C16', EXPL, 'DESIGN.md 3 C06'),
     'C07': ('model_checking', 'every history of <=2 (thorough 3) operations from {update_var scalar / wildcard / per-node array on constants, initial values and input defaults, update_var(edge_vars), apply(node_values)} on flat and hierarchical templates whose nodes share NodeTemplate and OperatorTemplate objects; after every history the compiled arguments, initial state, input defaults and edge weights (vectorize on/off) are compared with a plain dict reference model',
             'values from a small alphabet; histories longer than the bound; update_template-based replacement of nodes is covered by C14 seeds only', MC, 'DESIGN.md 3 C07'),
     'C08': ('exploration', 'pure integrators in 1-4 nodes at hierarchy depth 0-2 x every listed target selection (single, wildcard, hierarchical, two inputs on one variable, edge onto the same variable) x array shapes (N,), (N,1), (N,n) with strictly distinct samples x solver x backend x vectorize: trajectories of run() and values of the compiled function at on-grid, mid-grid and out-of-range t vs a dict-state reference (sample k during step k; np.interp on linspace(0,T,N) and its exact integral for adaptive solvers)',
@@ -27,6 +29,10 @@ CHECKS = {
             'histories longer than the bound; Fortran file-name re-use is not explored; worker reset is cross-checked against fresh interpreters on every run', MC, 'DESIGN.md 3 C13'),
     'C14': ('model_checking', 'seeds {flat, depth-1, depth-2, shared operators with per-node overrides, YAML-derived} x every sequence of <=1 (thorough 2) legitimate mutators x every sequence of <=2 (3 on a sub-alphabet) of the 14 listed read-only / copy-making operations; after every operation the canonical dump of the template (equations, declared values, per-node variations, edges, edge map, object sharing, state bookkeeping) must be unchanged, at the end the vector field must equal that of a pristine twin and repeated run(in_place=False) must return identical frames',
             'an operation that raises is not counted as a violation unless it changed the template; five seeds', MC, 'DESIGN.md 3 C14'),
+    'C16': ('exploration', 'PopulationTemplate(n) x Connectivity circuits with n in 1..3 (4), one or two populations, every weight matrix over a 3-value alphabet for <=2x2 and all matrices with <=3 non-zeros otherwise (non-square, signed, sparse), scalar weights, heterogeneous per-unit parameters and initial states, algebraic and dynamic coupling edges, delays with and without spread: vector field at probe points and euler trajectories (one column per unit, in unit order) vs the unit-by-unit reference expansion and, for plain weights, vs the explicit circuit built with add_edges_from_matrix',
+            'input defaults are 0 in the models (an all-zero matrix row is ambiguous between the two readings the property gives otherwise, see DESIGN.md 8); n <= 4', EXPL, 'DESIGN.md 3 C16'),
+    'C17': ('exploration', '2 circuits x parameter maps {node parameter, several nodes per key, several variables per key, edge attribute, node+edge, initial value+parameter} x grids {equal-length 2 and 3, permuted} x inputs {none, shared array} x vectorize x solver: for every row of the parameter table returned by grid_search the block of result columns labelled with that row key must equal a separate run of a fresh template updated with those values',
+            'two base circuits; grids of at most 6 rows', EXPL, 'DESIGN.md 3 C17'),
     'C19': ('model_checking', 'explicit-state search of all update sequences up to depth 6/7 on the real DDEHistory class, every query of a lattice checked in every state against a list-based reference',
             'values outside the finite alphabets (3 deltas, 3 y vectors, 3 shapes, 3 dtypes) and sequences longer than the bound are not covered, except one 3000-step run through the real capacity', MC, 'DESIGN.md 3 C19'),
 }
